@@ -124,6 +124,7 @@ func runC08(p *Prog, r *Report) {
 	c8NoGoQuoting(p, r)
 	c8SharedIdentPredicate(p, r)
 	c8EmittersCompose(p, r)
+	checkSortedIDsAs(p, r, "R8.6-documented-order")
 }
 
 func (c *c8ctx) anchors() bool {
